@@ -126,6 +126,6 @@ def fromString (s : Bytes) : Option Cursor := fromParts (splitColon s)
 
 /-- `IsOnFinalBlock` -/
 def isOnFinalBlock (c : Cursor) : Bool :=
-  c.block.num == c.lib.num && (c.step.toNat &&& 16 != 0)
+  c.block.num == c.lib.num && (Int.fmod (Int.fdiv c.step 16) 2 == 1)   -- step & 16 ≠ 0 (two's complement)
 
 end BstreamVerif.Cursor
